@@ -68,7 +68,7 @@ func init() {
 		"dump", "pttl", "sort", "ttl", "type", "exists",
 		// string & list & geo
 		"bitcount", "bitpos", "get", "getbit", "getrange", "strlen",
-		"lindex", "llen", "lrange", "geoadd",
+		"lindex", "llen", "lrange",
 		// hash
 		"hexists", "hget", "hgetall", "hkeys", "hlen", "hmget",
 		"hstrlen", "hvals", "hscan",
